@@ -12,6 +12,7 @@
 #include <sys/mman.h>
 #include <sys/stat.h>
 #include <algorithm>
+#include <fenv.h>
 
 Sim g_sim;
 LibImage g_lib;
@@ -391,7 +392,9 @@ static bool alloc_request(Task *t, uintptr_t ra, uint32_t *site_out) {
 }
 // bit i of OpResult::libc_static: the call used libc function g_libc_static_names[i], which keeps its
 // result or its continuation state in static storage shared by all threads
-const char *g_libc_static_names[] = {"asctime", "ctime", "localtime", "gmtime", "strtok", "tmpnam(NULL)", "rand", "setlocale(change)"};
+const char *g_libc_static_names[] = {"asctime", "ctime", "localtime", "gmtime", "strtok", "tmpnam(NULL)", "rand", "setlocale(change)",
+                                     // process-wide settings: a call that changes one (even if it puts it back) is visible to every thread
+                                     "umask", "setenv", "putenv", "unsetenv", "chdir", "fesetround", "signal", "sigaction", "srand", nullptr};
 static void libc_probe(int idx) {
     Task *t = t_self;
     if (t && t->op) {
@@ -504,6 +507,15 @@ int __wrap_mblen(const char *s, size_t n) { on_event(); int r = mblen(s, n); on_
 size_t __wrap_wcrtomb(char *s, wchar_t wc, mbstate_t *ps) { on_event(); size_t r = wcrtomb(s, wc, ps); on_event(); return r; }
 char *__wrap_strerror(int e) { on_event(); char *r = strerror(e); on_event(); return r; }
 int __wrap_rand(void) { libc_probe(6); return rand(); }
+mode_t __wrap_umask(mode_t m) { libc_probe(8); mode_t r = umask(m); on_event(); return r; }
+int __wrap_setenv(const char *n, const char *v, int o) { libc_probe(9); int r = setenv(n, v, o); on_event(); return r; }
+int __wrap_putenv(char *s) { libc_probe(10); int r = putenv(s); on_event(); return r; }
+int __wrap_unsetenv(const char *n) { libc_probe(11); int r = unsetenv(n); on_event(); return r; }
+int __wrap_chdir(const char *p) { libc_probe(12); int r = chdir(p); on_event(); return r; }
+int __wrap_fesetround(int m) { libc_probe(13); int r = fesetround(m); on_event(); return r; }
+sighandler_t __wrap_signal(int sig, sighandler_t h) { libc_probe(14); sighandler_t r = signal(sig, h); on_event(); return r; }
+int __wrap_sigaction(int sig, const struct sigaction *a, struct sigaction *o) { if (a) libc_probe(15); else on_event(); int r = sigaction(sig, a, o); on_event(); return r; }
+void __wrap_srand(unsigned s) { libc_probe(16); srand(s); on_event(); }
 char *__wrap_setlocale(int cat, const char *loc) { if (loc) libc_probe(7); else on_event(); char *r = setlocale(cat, loc); on_event(); return r; }
 }
 
@@ -628,6 +640,47 @@ static void __attribute__((noinline)) stack_scrub() {
     __asm__ volatile("" ::"r"(pad) : "memory");
 }
 
+// process-wide settings a library call has no business leaving changed: part of every digest, so that a call whose
+// borrowed setting is restored to the wrong value (because another thread's call ran in the window) is seen by oracle I
+static uint64_t settings_fingerprint() {
+    Hasher h;
+    mode_t m = umask(0);
+    umask(m);
+    h.u64((uint64_t)m);
+    h.u64((uint64_t)fegetround());
+    const char *lc = setlocale(LC_ALL, nullptr);
+    if (lc) h.bytes(lc, strlen(lc));
+    for (char **e = environ; e && *e; e++) h.bytes(*e, strlen(*e));
+    char cwd[512];
+    if (getcwd(cwd, sizeof cwd)) h.bytes(cwd, strlen(cwd));
+    return h.h;
+}
+static std::vector<std::string> g_env0;
+static std::string g_cwd0;
+static void settings_reset() {
+    if (g_env0.empty()) {
+        for (char **e = environ; e && *e; e++) g_env0.push_back(*e);
+        char cwd[512];
+        if (getcwd(cwd, sizeof cwd)) g_cwd0 = cwd;
+        return;
+    }
+    umask(022);
+    fesetround(FE_TONEAREST);
+    bool same = true;
+    size_t n = 0;
+    for (char **e = environ; e && *e; e++, n++)
+        if (n >= g_env0.size() || g_env0[n] != *e) same = false;
+    if (!same || n != g_env0.size()) {
+        clearenv();
+        for (auto &kv : g_env0) {
+            size_t eq = kv.find('=');
+            if (eq != std::string::npos) setenv(kv.substr(0, eq).c_str(), kv.c_str() + eq + 1, 1);
+        }
+    }
+    char cwd[512];
+    if (!g_cwd0.empty() && getcwd(cwd, sizeof cwd) && g_cwd0 != cwd) (void)!chdir(g_cwd0.c_str());
+}
+
 static void finish_digest(Task &t, OpResult &r) {
     r.arena_hash = hash_bytes(t.arena.base, ARENA_SIZE, 0);
     Hasher h;
@@ -638,6 +691,8 @@ static void finish_digest(Task &t, OpResult &r) {
     for (auto &c : r.hcalls) { h.u64((uint64_t)c.hid); h.u64((uint64_t)(int64_t)c.code); h.u64(c.msgh); }
     h.str(r.out);
     h.u64(r.double_free);
+    r.digest_core = h.h;
+    h.u64(settings_fingerprint());
     r.digest = h.h;
 }
 
@@ -735,6 +790,7 @@ void run_pass(const Plan &plan, const PassCfg &cfg, Strategy &strat, PassResult 
     g_live.clear();
     g_freed.clear();
     setlocale(LC_ALL, plan.locale ? "C.UTF-8" : "C");
+    settings_reset();
     g_sim.plan = &plan;
     g_sim.cfg = cfg;
     g_sim.strat = &strat;
